@@ -113,4 +113,42 @@ CHECKS = {
         "note": "Environment variables are treated as inputs of a compilation. slotmap's SparseSecondaryMap serialises in key order (read in slotmap 1.1.1).",
         "technique": "exhaustive type-based call scan (disallowed-source rule) on rustc MIR with consumer classification and a reviewed site table",
     },
+    "C17": {
+        "text": "Partial, static, on SubgraphMerge (MIR, all paths): UnionFind::union in try_merge is dominated by the 'not enemies' edge of the enemies lookup and by the exhaustion "
+                "of the cycle search; no other function unions the membership structure; the no-merge relation is inserted symmetrically and remapped element-wise on a merge "
+                "(u gains w, w loses v and gains u). Correctness of topo_sort, of the window re-sort and 'refuses only when necessary' are NOT decided.",
+        "note": "Necessary conditions for 'never merges two incompatible nodes' and 'never creates a cycle between groups'.",
+        "technique": "dominance / who-may-call / argument-flow rules on rustc MIR",
+    },
+    "C18": {
+        "text": "Partial, static, on flat_to_partitioned.rs (MIR, all paths): a destination input that declares a delay is recorded as barrier pair AND tick edge on exactly the same "
+                "paths; the no-merge set given to the merger is fed by the barrier pairs, the access-group pairs and the handoff-reference producers; a merge is attempted only "
+                "inside one loop context; the delay of a split edge moves to the handoff's out-edge and reaches set_handoff_delay_type. 'Single pull-then-push pipeline' and "
+                "toposort validity for every graph are NOT decided (the code asserts the latter at run time).",
+        "note": "Operator-table facts (which operators declare delays) are read with syn and reported in C24/C26 evidence.",
+        "technique": "must-pass-through / backward argument-flow / dominance rules on rustc MIR",
+    },
+    "C19": {
+        "text": "Partial, static: the predecessor map handed to the topological sorter receives every pipe edge that is not a tick edge (push dominated by the not-contained edge of "
+                "tick_edges.contains_key, the contained edge pushes nothing), handoff-reference producers, access-group pairs and loop-ingress constraints, and the sorter's "
+                "predecessor closure reads that map; partition_graph has exactly one error path, fed by the cycle returned from SubgraphMerge::new, and the diagnostic is built "
+                "from that cycle. That topo_sort's cycle is genuine is NOT decided here.",
+        "note": "Necessary conditions for 'rejects exactly the graphs with same-tick cycles'.",
+        "technique": "dominance + error-path enumeration on rustc MIR",
+    },
+    "C20": {
+        "text": "Partial, static: the JSON round trip of the meta graph cannot silently drop state: every #[serde(skip)] field of every serialised dfir_lang type (read with syn) is "
+                "either presentation-only (Span) or written by a function that Dfir::new calls on its JSON path (call-graph reachability on MIR), and on that path deserialisation "
+                "is followed by the rebuild on every path. Wiring preservation of union/tee removal and module merging is NOT decided; serde's derive is trusted for non-skipped fields.",
+        "note": "dfir_rs is analysed with its default features (incl. `meta`).",
+        "technique": "attribute scan (syn) + who-writes / call-graph reachability + must-pass-through on rustc MIR",
+    },
+    "C22": {
+        "text": "Partial, static ('all compile or all fail' side): the colouring relation can_connect_colorize is read off its compiled match by evaluating all 25 (Option<Color>, "
+                "Option<Color>) cases on the MIR: it is total, never joins Push->Pull / Comp->Pull / Comp->Comp / a handoff, and accepts every legal pull-then-push pair; each of the "
+                "16 operator generators that unconditionally assert one placement has an arity table for which DfirGraph::node_color forces exactly that placement (operator table "
+                "read with syn), and no generator panics on one placement only. Equality of outputs between placements is NOT decided.",
+        "note": "node_color's degree rule is transcribed in the checker and cross-checked against the 16 asserting operators.",
+        "technique": "decision-table extraction by enum-domain evaluation of MIR + operator-table consistency (syn)",
+    },
 }
